@@ -275,6 +275,36 @@ def h_entity_texts(ctx, major, close):
               len(ofx.bankmsgsrqv1) == 1 and ofx.bankmsgsrqv1[0].stmtrq.bankacctfrom.acctid == acctid)
 
 
+def h_repeated(ctx, major, kind, n):
+    """a multiset proper: n requests of one kind that differ at most in their (symbolic) account ids - equal ids give equal requests"""
+    client = OFXClient("http://x", userid="u", version=102 if major == 1 else 203, bankid="B1", brokerid="BR")
+    reqs, ids = [], []
+    for i in range(n):
+        a = ctx.str(f"acct{i}", 1, "0-2")
+        ids.append(a)
+        if kind == "stmt":
+            reqs.append(StmtRq(acctid=a, accttype="CHECKING", dtstart=D1, dtend=D2))
+        elif kind == "cc":
+            reqs.append(CcStmtRq(acctid=a, dtstart=D1, dtend=D2))
+        elif kind == "inv":
+            reqs.append(InvStmtRq(acctid=a, dtstart=D1, dtend=D2))
+        elif kind == "stmtend":
+            reqs.append(StmtEndRq(acctid=a, accttype="SAVINGS", dtstart=D1, dtend=D2))
+        else:
+            reqs.append(CcStmtEndRq(acctid=a, dtstart=D1, dtend=D2))
+    data = client.request_statements("pw", *reqs, dryrun=True).read()
+    hdr, ofx = parse_back(data)
+    ms = getattr(ofx, MSGSET_OF[kind])
+    got = [] if ms is None else [w for w in ms if type(w).__name__ == WRAPPER_OF[kind]]
+    ctx.check(f"exactly one {WRAPPER_OF[kind]} per requested account, under the right message set", len(got) == n)
+    if len(got) != n:
+        return
+    inner = {"stmt": lambda w: w.stmtrq.bankacctfrom.acctid, "cc": lambda w: w.ccstmtrq.ccacctfrom.acctid, "inv": lambda w: w.invstmtrq.invacctfrom.acctid,
+             "stmtend": lambda w: w.stmtendrq.bankacctfrom.acctid, "ccend": lambda w: w.ccstmtendrq.ccacctfrom.acctid}[kind]
+    ctx.check("each wrapper carries its account's identifiers, type, date range and flags, in request order", ctx.all([inner(w) == a for w, a in zip(got, ids)]))
+    ctx.check("transaction ids are pairwise distinct", len(set([w.trnuid for w in got])) == n)
+
+
 def h_unclosed_v2(ctx):
     version = ctx.choice("version", V2)
     pretty = ctx.bool("prettyprint")
@@ -293,11 +323,11 @@ def h_unclosed_v2(ctx):
     ctx.check("versions 2xx refuse to omit end tags (per-request override)", refused)
 
 
-HARNESSES = dict(entity_texts=h_entity_texts, envelope=h_envelope, statements=h_statements, dates=h_dates, accounts=h_accounts, tax=h_tax, profile=h_profile, unclosed_v2=h_unclosed_v2)
+HARNESSES = dict(repeated=h_repeated, entity_texts=h_entity_texts, envelope=h_envelope, statements=h_statements, dates=h_dates, accounts=h_accounts, tax=h_tax, profile=h_profile, unclosed_v2=h_unclosed_v2)
 
 META = dict(
     bounds=dict(configurations="every supported version x pretty x close_elements x presence of ORG/FID, CLIENTUID, custom APPID/APPVER/LANGUAGE",
-                requests="0-3 statement requests: kinds given per instance (all 5 kinds and their pairs / triples), symbolic rotation of their order, "
+                requests="2 (quick) / 3 (thorough) requests of one kind whose symbolic account ids may coincide (equal requests); 0-3 statement requests: kinds given per instance (all 5 kinds and their pairs / triples), symbolic rotation of their order, "
                          "symbolic 1-character account ids over the printable alphabet, symbolic account type, symbolic presence of dates and flags; "
                          "the first request's start date is a symbolic instant 1990-2100 with a symbolic whole-minute UTC offset",
                 credentials="user id 1 and password 2 symbolic characters over the printable alphabet (incl. & < > quotes, non-ASCII); "
@@ -345,6 +375,9 @@ def instances(tier, seed):
             mk(f"tax[v{major},{n}]", "tax", dict(major=major, nyears=n, fixed=fixed()))
         mk(f"profile[v{major}]", "profile", dict(major=major, fixed=fixed()))
     mk("unclosed_v2", "unclosed_v2", {})
+    for major in (1, 2):
+        for k in (KINDS if full else (["stmt", "ccend"] if major == 1 else ["inv", "cc", "stmtend"])):
+            mk(f"repeated[v{major},{k}]", "repeated", dict(major=major, kind=k, n=2 if not full else 3))
     for major, close in ((1, False), (1, True), (2, True)):
         mk(f"entity_texts[v{major},close={close}]", "entity_texts", dict(major=major, close=close))
     return out
